@@ -123,5 +123,41 @@ theorem ledger_ok_only_if (pks : List Pubkey) (h : Bytes) (ui signer : TV) (p : 
 /-- non-vacuity: a well-formed current-format message is parsed -/
 example : (parsePowHsm (ascii "POWHSM:5.4::" ++ List.replicate 115 7)).isSome = true := by decide +kernel
 
+/-- **Ledger: it does finish without error if** the operator's file has the BTC key, both targets are
+    valid, the UI message has its header and carries that key (compressed) at offset header+32, and the
+    signer message — current format — has its header, the exact length, and reports the operator's keys
+    hash; what is printed are the fields at the documented offsets -/
+theorem ledger_ok_if_current (pks : List Pubkey) (h uiMsg uiHash sMsg sHash ver : Bytes) (mh : Nat)
+    (uiKey : Pubkey) (pm : PowHsmMsg)
+    (hk : pks.find? (·.path == "m/44'/0'/0'/0/0") = some uiKey)
+    (hh : uiHeader uiMsg = some (ver, mh))
+    (hpk : (uiMsg.drop (mh + 32)).take 33 = uiKey.compressed)
+    (hleg : legacyHeader sMsg = none) (hp : parsePowHsm sMsg = some pm) (hph : pm.pubkeysHash = h) :
+    verifyLedger pks h (.valid uiMsg uiHash) (.valid sMsg sHash) =
+      some { udValue := (uiMsg.drop mh).take 32, uiPubKey := (uiMsg.drop (mh + 32)).take 33,
+             signerHashAuth := (uiMsg.drop (mh + 65)).take 32,
+             signerIteration := Bytes.beVal ((uiMsg.drop (mh + 97)).take 2), uiHash := uiHash, uiVersion := ver,
+             pubkeysHash := h, signerHash := sHash, signerVersion := pm.version, powhsm := some pm } := by
+  have hhdr : (powhsmHeader sMsg).isNone = false := by
+    unfold parsePowHsm at hp
+    split at hp <;> simp_all
+  unfold verifyLedger
+  simp [hk, hh, hpk, hleg, hhdr, hp, hph]
+
+/-- …and in the legacy signer format: header, then exactly the operator's keys hash and nothing after it -/
+theorem ledger_ok_if_legacy (pks : List Pubkey) (h uiMsg uiHash sMsg sHash ver lver : Bytes) (mh hl : Nat)
+    (uiKey : Pubkey)
+    (hk : pks.find? (·.path == "m/44'/0'/0'/0/0") = some uiKey)
+    (hh : uiHeader uiMsg = some (ver, mh))
+    (hpk : (uiMsg.drop (mh + 32)).take 33 = uiKey.compressed)
+    (hleg : legacyHeader sMsg = some (lver, hl)) (hrep : sMsg.drop hl = h) (hend : sMsg.drop (hl + 32) = []) :
+    verifyLedger pks h (.valid uiMsg uiHash) (.valid sMsg sHash) =
+      some { udValue := (uiMsg.drop mh).take 32, uiPubKey := (uiMsg.drop (mh + 32)).take 33,
+             signerHashAuth := (uiMsg.drop (mh + 65)).take 32,
+             signerIteration := Bytes.beVal ((uiMsg.drop (mh + 97)).take 2), uiHash := uiHash, uiVersion := ver,
+             pubkeysHash := h, signerHash := sHash, signerVersion := lver, powhsm := none } := by
+  unfold verifyLedger
+  simp [hk, hh, hpk, hleg, hrep, hend]
+
 end Props.C08
 end PowHsm
